@@ -2,6 +2,7 @@ package core
 
 import (
 	"context"
+	"sort"
 	"errors"
 	"fmt"
 	"io"
@@ -82,7 +83,9 @@ type half struct {
 // Conn is a simulated TCP connection. The client side is used by the system under test
 // (net.Conn); the server side is driven by the simulator without goroutines.
 type Conn struct {
-	ID   int
+	ID   int    // arrival order (not canonical; do not log)
+	Name string // canonical: h<host index>.<per-host dial ordinal>
+	Ord  int    // per-host dial ordinal
 	Host *Host
 	net  *Net
 	mu   sync.Mutex
@@ -100,6 +103,9 @@ type Conn struct {
 	faults      []*StreamFault
 	// Writes counts client Write calls; WriteStart[i] is the stream offset where write i began.
 	WriteStart []int64
+	// RecordWire makes the connection keep the bytes actually put on the wire per direction (after faults).
+	RecordWire bool
+	Wire       [2][]byte
 	// ServerData is per-connection state owned by the server implementation.
 	ServerData any
 	// ClosedByClient is set when the client called Close.
@@ -125,6 +131,7 @@ type Host struct {
 	BufLimit    int           // socket buffer model for new connections (0 = unbounded)
 	Latency     [2]LatencyModel
 	Dials       int
+	accepted    int
 }
 
 // LatencyModel: base + uniform jitter, in microseconds.
@@ -158,6 +165,23 @@ func (n *Net) AddHost(name string, srv Server) *Host {
 	return h
 }
 
+// ordered returns the connections in canonical order (host index, per-host ordinal).
+func (n *Net) ordered() []*Conn {
+	n.mu.Lock()
+	conns := append([]*Conn{}, n.Conns...)
+	n.mu.Unlock()
+	sort.SliceStable(conns, func(i, j int) bool {
+		if conns[i].Host.Index != conns[j].Host.Index {
+			return conns[i].Host.Index < conns[j].Host.Index
+		}
+		return conns[i].Ord < conns[j].Ord
+	})
+	return conns
+}
+
+// Ordered returns the connections in canonical order.
+func (n *Net) Ordered() []*Conn { return n.ordered() }
+
 func (n *Net) host(name string) *Host {
 	for _, h := range n.Hosts {
 		if h.Name == name {
@@ -188,6 +212,7 @@ func (n *Net) Dial(ctx context.Context, network, host string) (net.Conn, error) 
 	if w.Sched.shutdown {
 		runtime.Goexit()
 	}
+	w.Sched.TagGoroutine("dial:"+host, false)
 	h := n.host(host)
 	if h == nil {
 		return nil, &netErr{msg: "dial tcp: lookup " + host + ": no such host"}
@@ -220,13 +245,16 @@ func (n *Net) Dial(ctx context.Context, network, host string) (net.Conn, error) 
 		return nil, errRefused
 	}
 	c := &Conn{ID: len(n.Conns), Host: h, net: n, srvReading: !h.AcceptStall, bufLimit: h.BufLimit, DialedAt: w.Now()}
+	c.Ord = h.accepted
+	h.accepted++
+	c.Name = fmt.Sprintf("h%d.%d", h.Index, c.Ord)
 	n.Conns = append(n.Conns, c)
 	stall := h.AcceptStall
 	n.mu.Unlock()
 	if stall {
 		n.fired("accept-then-stall")
 	}
-	w.logf("dial %s -> conn %d", host, c.ID)
+	w.logf("dial %s -> conn %s", host, c.Name)
 	h.Srv.OnAccept(c)
 	w.kickDriver()
 	return c, nil
@@ -417,9 +445,12 @@ func (c *Conn) enqueueLocked(d int, b []byte) {
 			data = append(data[:rel], append(junk, data[rel:]...)...)
 		}
 		c.net.fired("stream-" + f.Kind)
-		c.net.w.logf("fault %s conn=%d dir=%s frame=%d rel=%d", f.Kind, c.ID, dirName[d], frame, rel)
+		c.net.w.logf("fault %s conn=%s dir=%s frame=%d rel=%d", f.Kind, c.Name, dirName[d], frame, rel)
 	}
 	seg.Data = data
+	if c.RecordWire {
+		c.Wire[d] = append(c.Wire[d], data...)
+	}
 	h.inflight = append(h.inflight, seg)
 }
 
@@ -474,7 +505,7 @@ func (c *Conn) Close() error {
 	c.wake(&c.dir[S2C])
 	c.wakeWriter()
 	c.mu.Unlock()
-	c.net.w.logf("client closes conn %d", c.ID)
+	c.net.w.logf("client closes conn %s", c.Name)
 	c.Host.Srv.OnClientClose(c)
 	c.net.w.kickDriver()
 	return nil
@@ -485,7 +516,7 @@ type simAddr string
 func (a simAddr) Network() string { return "sim" }
 func (a simAddr) String() string  { return string(a) }
 
-func (c *Conn) LocalAddr() net.Addr  { return simAddr(fmt.Sprintf("client:%d", c.ID)) }
+func (c *Conn) LocalAddr() net.Addr  { return simAddr("client:" + c.Name) }
 func (c *Conn) RemoteAddr() net.Addr { return simAddr(c.Host.Name) }
 func (c *Conn) SetDeadline(t time.Time) error {
 	c.mu.Lock()
@@ -537,7 +568,7 @@ func (c *Conn) ServerClose(grace int) {
 	c.wakeWriter()
 	c.mu.Unlock()
 	c.net.fired("close")
-	c.net.w.logf("server closes conn %d grace=%d", c.ID, grace)
+	c.net.w.logf("server closes conn %s grace=%d", c.Name, grace)
 }
 
 // Reset models an RST: both directions fail at once.
@@ -557,7 +588,7 @@ func (c *Conn) Reset() {
 	c.wakeWriter()
 	c.mu.Unlock()
 	c.net.fired("reset")
-	c.net.w.logf("reset conn %d", c.ID)
+	c.net.w.logf("reset conn %s", c.Name)
 }
 
 // Blackhole stops all delivery; after the keep-alive bound the connection is reset.
@@ -570,8 +601,8 @@ func (c *Conn) Blackhole(keepAlive time.Duration) {
 	c.blackhole = true
 	c.mu.Unlock()
 	c.net.fired("black-hole")
-	c.net.w.logf("blackhole conn %d", c.ID)
-	c.net.w.At(keepAlive, fmt.Sprintf("keepalive-expiry conn=%d", c.ID), func() { c.Reset() })
+	c.net.w.logf("blackhole conn %s", c.Name)
+	c.net.w.At(keepAlive, "keepalive-expiry conn="+c.Name, func() { c.Reset() })
 }
 
 // SetServerReading switches the server's consumption of client bytes on or off (write-stall model).
@@ -655,7 +686,7 @@ func (c *Conn) deliver(d int, ch *Chooser) {
 		c.net.fired("split")
 	}
 	h.deliv += int64(n)
-	w.logf("deliver %s conn=%d n=%d/%d", dirName[d], c.ID, n, len(seg.Data))
+	w.logf("deliver %s conn=%s n=%d/%d", dirName[d], c.Name, n, len(seg.Data))
 	if d == S2C {
 		h.readable = append(h.readable, part...)
 		if closeAfter {
